@@ -43,6 +43,8 @@ class Actor:
             self.inbox = None
             if isinstance(v, BaseException):
                 raise v
+            if self.kill_requested:
+                raise Killed()       # stopped before it ever ran (restart of a client whose start was still pending)
             self.result = self._target()
         except BaseException as e:  # noqa: BLE001 - recorded, judged by the world
             self.error = e
